@@ -633,7 +633,7 @@ Goal unicode_ok uc_exec /\ Proofs.C10_GOFile.c10_go_cfg_ok Proofs.C10_GOGrammarF
   c10_go_recognise Proofs.C10_GOGrammarFile.gg_text = Some 19%nat.
 Proof. exact Props.C10.C10_grammar_go_in_domain. Qed.
 Print Assumptions Props.C10.C10_grammar_go_in_domain.
-Goal exists cfg pd text, dom_C10 CGO pd = true /\ known_C10 CGO [] pd = [] /\ known_C10_go_grammar pd = [] /\
+Goal exists cfg pd text, dom_C10 CGO pd = true /\ known_C10 CGO [] pd = [] /\ known_C10_go_grammar pd = ["C10-go-keyword-name"%string] /\
     go_generate uc_exec cfg pd = Ok text /\ contains_sub (lit "type interface{}") text = true /\ c10_go_recognise text = None.
 Proof. exact Props.C10.C10_go_keyword_content_key_refuted. Qed.
 Print Assumptions Props.C10.C10_go_keyword_content_key_refuted.
